@@ -406,7 +406,7 @@ func vGetProxy(kind cache.EntryKind, mode casblob.CompressionType, wantZstd bool
 		d.drain()
 		_, el := c.lru.Get(key)
 		vsym.Assert(el == nil, "proxyget/C12-failed-fetch-caches-nothing")
-		d.checkDirEqualsIndex("proxyget-nohit")
+		d.checkDirEqualsIndex("proxyget-nohit/C12")
 		cnt := st.checkIndex("", 0, 0, "proxyget-nohit")
 		_ = cnt
 		if err != nil {
@@ -458,7 +458,7 @@ func vGetProxy(kind cache.EntryKind, mode casblob.CompressionType, wantZstd bool
 	if still != nil {
 		st.checkIndex(key, rd, ru, "proxyget-hit")
 	}
-	d.checkDirEqualsIndex("proxyget-hit")
+	d.checkDirEqualsIndex("proxyget-hit/C12")
 }
 
 var vErrBackend = errorString("backend fault")
